@@ -375,7 +375,15 @@ func TestEngine(t *testing.T) {
 			t.Fatal(err)
 		}
 	} else {
-		ops = parseLines(generate(cfg))
+		gen := generate(cfg)
+		if cfg.Extra["dryrun"] == "1" {
+			// print the generated cases without executing them (to locate a case of a given shard)
+			for _, l := range gen {
+				tr.Line(l, "")
+			}
+			return
+		}
+		ops = parseLines(gen)
 	}
 	execOps(t, tr, ops)
 }
